@@ -279,3 +279,49 @@ Theorem C03_create_wipe_rewrites_directory : forall s path t s' ploc e,
     flush_fat s2 = Ok s'.
 Proof. exact create_wipe_rewrites_directory. Qed.
 Print Assumptions C03_create_wipe_rewrites_directory.
+
+(** ** C03 over histories, the FAT third (Proofs/Quiesce.v).  [qinv]: the invariants of a mounted volume (sane geometry, well-formed table that
+    fills its region, well-formed device) — preserved by EVERY interface call (C03_invariants_preserved).  [synced]: every FAT copy on the device
+    decodes to the in-memory table.  create, makedir, remove, removedir and the close of a handle keep / re-establish it (C03_quiescent_synced);
+    writes through an open handle change the table in memory only, and whatever happened before, a removal or a FAT flush puts all of it on the
+    device (C03_flush_after_anything).  With C03_dir_persists (directories are read from the device) and C03_remount_closed this is the
+    model-level content of "nothing that the interface reports exists only in memory" at the points the property names: no handle open. *)
+From Coq Require Import Relations.
+From PyFatV Require Import Proofs.FatBound Proofs.BootSafe Proofs.Inside Proofs.Quiesce Proofs.Bracket.
+Theorem C03_invariants_preserved : forall s s', qinv s -> clos_refl_trans st wstep s s' -> qinv s'.
+Proof. exact history_qinv. Qed.
+Print Assumptions C03_invariants_preserved.
+Theorem C03_quiescent_synced : forall s s', qinv s -> synced s -> clos_refl_trans st qstep s s' -> qinv s' /\ synced s'.
+Proof. exact quiescent_history_synced. Qed.
+Print Assumptions C03_quiescent_synced.
+Theorem C03_flush_after_anything : forall s s1 s2, qinv s -> clos_refl_trans st wstep s s1 ->
+  (exists p, op_remove s1 p = Ok s2) \/ (exists p, op_removedir s1 p = Ok s2) \/ (exists x, flush_fat s1 = Ok s2 /\ x = tt) -> synced s2.
+Proof. exact any_history_then_flush_synced. Qed.
+Print Assumptions C03_flush_after_anything.
+(** non-vacuity: the FAT16 volume of C16's example after its dirty marking satisfies [qinv] and [synced]; a makedir and a create are
+    quiescent steps from it *)
+From PyFatV Require Import Properties.C11.
+Definition ex03_c : st := match op_create ex11_a [ex_nameD; ex_nameF] false (2020, 1, 1, 0, 0, 2) with Ok (_, s) => s | Err _ => ex11_a end.
+Example C03_quiescent_example : qinv ex16_s1 /\ synced ex16_s1 /\ clos_refl_trans st qstep ex16_s1 ex03_c /\ s_fat ex03_c <> s_fat ex16_s1.
+Proof.
+  destruct C11_history_example as (Hs & _).
+  assert (Hpre : pre ex16_s1).
+  { unfold pre. split; [right; left; vm_compute; reflexivity|]. split; [|vm_compute; discriminate].
+    unfold geo. repeat (split; [vm_compute; first [reflexivity|discriminate]|]). vm_compute. discriminate. }
+  split.
+  { split; [exact Hpre|]. split; [exact Hs|]. split; [apply dev_ok_of_forallb; vm_compute; reflexivity|]. split.
+    - right. left. split; [vm_compute; reflexivity|]. unfold ent_ok. apply Forall_forall. intros x Hx.
+      assert (Hb : forallb (fun x => (0 <=? x) && (x <? 65536)) (s_fat ex16_s1) = true) by (vm_compute; reflexivity).
+      rewrite forallb_forall in Hb. specialize (Hb x Hx). change (2 ^ 16) with 65536. lia.
+    - split; [vm_compute; reflexivity|vm_compute; discriminate]. }
+  split.
+  { intros k Hk. assert (Hn : BPB_NumFATs (s_h ex16_s1) = 2) by (vm_compute; reflexivity). rewrite Hn in Hk.
+    assert (k = 0 \/ k = 1) as [-> | ->] by lia; (split; [vm_compute; reflexivity|intros H; vm_compute in H; discriminate]). }
+  split.
+  - apply rt_trans with ex11_a; apply rt_step.
+    + apply (qs_makedir ex16_s1 [ex_nameD] false (2020, 1, 1, 0, 0, 0) ex11_a). vm_compute. reflexivity.
+    + assert (E : exists b, op_create ex11_a [ex_nameD; ex_nameF] false (2020, 1, 1, 0, 0, 2) = Ok (b, ex03_c)).
+      { unfold ex03_c. destruct (op_create ex11_a _ _ _) as [[b s]|] eqn:E; [exists b; reflexivity|vm_compute in E; discriminate]. }
+      destruct E as (b & E). exact (qs_create _ _ _ _ _ _ E).
+  - intro H. apply (f_equal (fun l => nthZ l 3)) in H. vm_compute in H. discriminate.
+Qed.
